@@ -111,6 +111,7 @@ func caseFor(e *env, l *lst, rq Req, transport, labels string) *Case {
 	if l.edit != nil {
 		cp := *l.edit
 		k.Edit = &cp
+		k.EditVia = l.editVia
 	}
 	return k
 }
@@ -423,6 +424,9 @@ func replay(c *lib.Ctx) {
 		return
 	}
 	if k.Edit != nil {
+		if k.EditVia == "operator" {
+			l.edits = 1 // the next edit takes the operator's path
+		}
 		e.editListener(l, *k.Edit)
 	}
 	if w.Kind == "batch" {
